@@ -5,7 +5,7 @@ from vlib import kinds, pm, refframe, sched, specpdu, transports
 from vlib.engine import Disc, Outcome
 
 PID = 'C15'
-RULE = ('Hypothesis: 2..4 real threads x 1..3 transactions each on ONE shared client (ModbusTcpClient, serial RTU client) over '
+RULE = ('Hypothesis: 2..4 real threads x 1..3 transactions each on ONE shared client (ModbusTcpClient, ModbusUdpClient, serial RTU client) over '
         'the scripted virtual-time transport; replies differ in length and some are split over two reads with a delay; the '
         'schedule is a generated list of integers consumed by a baton-passing scheduler that owns every context switch '
         '(threads yield at connect, every send, every receive and at every acquisition of the transaction lock, which is '
@@ -23,7 +23,7 @@ BUDGET = {'quick': 2500, 'thorough': 10000}
 def _case(draw):
     nthreads = draw(st.integers(2, 4))
     ntx = [draw(st.integers(1, 3)) for _ in range(nthreads)]
-    return {'client': draw(st.sampled_from(['tcp', 'tcp', 'rtu'])), 'ntx': ntx,
+    return {'client': draw(st.sampled_from(['tcp', 'tcp', 'rtu', 'udp'])), 'ntx': ntx,
             'split': draw(st.lists(st.booleans(), min_size=12, max_size=12)),
             # transmissions the peer answers by silently closing the connection (the client retries on a new connection)
             'faults': draw(st.one_of(st.just([]), st.lists(st.sampled_from([False, False, False, True]), min_size=12, max_size=12))),
@@ -42,7 +42,7 @@ def strategy(tier):
 
 def sweeps(tier):
     """Stateless enumeration of all schedules (odometer over the decision vector)."""
-    shapes = [('tcp', [1, 1]), ('rtu', [1, 1])]
+    shapes = [('tcp', [1, 1]), ('rtu', [1, 1]), ('udp', [1, 1])]
     if tier == 'thorough':
         shapes += [('tcp', [2, 2]), ('tcp', [1, 1, 1]), ('rtu', [2, 1])]
     return [('all-schedules-%s-%s' % (c, 'x'.join(map(str, n))), _enumerate(c, n, 4000 if tier == 'quick' else 200000), True) for c, n in shapes]
@@ -67,8 +67,9 @@ def _enumerate(client, ntx, cap):
 
 
 class ReplyPeer(transports.Peer):
-    def __init__(self, framing, split, faults=()):
+    def __init__(self, framing, split, faults=(), stream=True):
         transports.Peer.__init__(self)
+        self.stream = stream          # a datagram reply is never split
         self.framing = framing
         self.split = split
         self.faults = list(faults)
@@ -90,18 +91,18 @@ class ReplyPeer(transports.Peer):
         a, q = f['address'], f['quantity']
         reply = specpdu.encode('rsp:3', {'registers': [(a * 3 + i + 1000) & 0xFFFF for i in range(q)]})
         frame = refframe.build(self.framing, p['uid'], reply, p['tid'] or 0, 0)
-        if self.split[self.n % len(self.split)] and self.framing == 'tcp':
+        if self.split[self.n % len(self.split)] and self.framing == 'tcp' and self.stream:
             k = 9
             return [(0.0, frame[:k]), (0.0005, frame[k:])]
         return [(0.0, frame)]
 
 
 def _run(case):
-    from pymodbus.client.sync import ModbusTcpClient, ModbusSerialClient
+    from pymodbus.client.sync import ModbusTcpClient, ModbusSerialClient, ModbusUdpClient
     from pymodbus.exceptions import ConnectionException
     pm.reset_globals()
-    framing = 'tcp' if case['client'] == 'tcp' else 'rtu'
-    peer = ReplyPeer(framing, case['split'], case.get('faults') or [])
+    framing = 'rtu' if case['client'] == 'rtu' else 'tcp'
+    peer = ReplyPeer(framing, case['split'], case.get('faults') or [], stream=case['client'] != 'udp')
     bc = case.get('bcast') or []
     badreq = case.get('badreq') or []
     kw = {'retries': 3, 'retry_on_empty': True, 'backoff': 0.01, 'broadcast_enable': bool(any(bc))}
@@ -113,6 +114,8 @@ def _run(case):
         w.connect_refusals = list(case.get('refuse') or []) if case['client'] == 'tcp' else []
         if case['client'] == 'tcp':
             client = ModbusTcpClient('peer', 502, timeout=1, **kw)
+        elif case['client'] == 'udp':
+            client = ModbusUdpClient('peer', 502, timeout=1, **kw)
         else:
             client = ModbusSerialClient(method='rtu', port='/dev/null', timeout=1, baudrate=115200, **kw)
         for t, n in enumerate(case['ntx']):
